@@ -1293,32 +1293,42 @@ pub fn rebuild(lvl: &PriceLevel, path: u8, lie: u8) -> Result<PriceLevel, String
     }
 }
 
-/// Execute a history.  Pure function of (history, code).
-pub fn run_history(h: &History) -> Outcome {
-    let hooks = SeqHooks::new(h.knobs.clock.clone(), h.knobs.hash_seed, h.knobs.shards);
-    let _inst = Installed::new(hooks.clone());
-    let level = PriceLevel::new(h.knobs.price);
-    let mut run = Run {
-        h,
-        hooks: hooks.clone(),
-        level,
-        generator: UuidGenerator::new(Uuid::from_u128(h.knobs.namespace)),
-        lp: h.knobs.price,
-        listing: vec![],
-        out: Outcome::default(),
-        dg: Digest::default(),
-        stamps: BTreeMap::new(),
-        next_stamp: 0,
-        stamps_valid: !h.knobs.zero,
-        cancelled_once: BTreeSet::new(),
-        ledger: BTreeMap::new(),
-        txids: BTreeSet::new(),
-        base_stats: [0; 4],
-        exp_stats: [0; 4],
-        all_at_level_price: true,
-    };
-    run.rebase_stats();
-    for (i, op) in h.ops.iter().enumerate() {
+/// A history being executed (exposed so that C11 can fork it).
+pub struct Exec<'a> {
+    run: Run<'a>,
+    _inst: Installed,
+}
+
+impl<'a> Exec<'a> {
+    pub fn start(h: &'a History) -> Exec<'a> {
+        let hooks = SeqHooks::new(h.knobs.clock.clone(), h.knobs.hash_seed, h.knobs.shards);
+        let inst = Installed::new(hooks.clone());
+        let level = PriceLevel::new(h.knobs.price);
+        let mut run = Run {
+            h,
+            hooks,
+            level,
+            generator: UuidGenerator::new(Uuid::from_u128(h.knobs.namespace)),
+            lp: h.knobs.price,
+            listing: vec![],
+            out: Outcome::default(),
+            dg: Digest::default(),
+            stamps: BTreeMap::new(),
+            next_stamp: 0,
+            stamps_valid: !h.knobs.zero,
+            cancelled_once: BTreeSet::new(),
+            ledger: BTreeMap::new(),
+            txids: BTreeSet::new(),
+            base_stats: [0; 4],
+            exp_stats: [0; 4],
+            all_at_level_price: true,
+        };
+        run.rebase_stats();
+        Exec { run, _inst: inst }
+    }
+    /// Apply operation `i`; false when the run had to be cut short.
+    pub fn apply(&mut self, i: usize, op: &Op) -> bool {
+        let run = &mut self.run;
         match op {
             Op::Add(o) => run.op_add(i, o),
             Op::Match { qty, taker } => run.op_match(i, *qty, *taker),
@@ -1328,24 +1338,73 @@ pub fn run_history(h: &History) -> Outcome {
             Op::Probe => run.op_probe(i),
         }
         run.out.ops_run += 1;
-        if run.out.aborted_at.is_some() {
+        run.out.aborted_at.is_none()
+    }
+    pub fn level(&self) -> &PriceLevel {
+        &self.run.level
+    }
+    pub fn hooks(&self) -> &Arc<SeqHooks> {
+        &self.run.hooks
+    }
+    pub fn generator(&self) -> &UuidGenerator {
+        &self.run.generator
+    }
+    pub fn tx_issued(&self) -> usize {
+        self.run.txids.len()
+    }
+    pub fn listing(&self) -> &[OrderSpec] {
+        &self.run.listing
+    }
+    /// Resting ids in the priority order the property prescribes (by stamp), if tracked.
+    pub fn spec_order(&self) -> Option<Vec<IdS>> {
+        if !self.run.stamps_valid {
+            return None;
+        }
+        let mut v: Vec<(u64, IdS)> = self
+            .run
+            .listing
+            .iter()
+            .filter_map(|o| self.run.stamps.get(&o.id).map(|s| (*s, o.id)))
+            .collect();
+        if v.len() != self.run.listing.len() {
+            return None;
+        }
+        v.sort();
+        Some(v.into_iter().map(|x| x.1).collect())
+    }
+    pub fn probes_mut(&mut self) -> &mut Probes {
+        &mut self.run.out.probes
+    }
+    pub fn finish(self) -> Outcome {
+        let Exec { mut run, _inst } = self;
+        if run.out.aborted_at.is_none() {
+            run.out.final_state = state_string(&run.level);
+        }
+        run.out.digest = run.dg.finish();
+        run.out.steps = run.hooks.steps.load(std::sync::atomic::Ordering::Relaxed);
+        run.out.clock_ms = run.hooks.clock.span.load(std::sync::atomic::Ordering::Relaxed);
+        run.out.clock_jumps = run
+            .hooks
+            .clock
+            .jumps_fired
+            .load(std::sync::atomic::Ordering::Relaxed);
+        let Run { out, level, .. } = run;
+        // drop the level with hooks still installed
+        drop(level);
+        drop(_inst);
+        out
+    }
+}
+
+/// Execute a history.  Pure function of (history, code).
+pub fn run_history(h: &History) -> Outcome {
+    let mut e = Exec::start(h);
+    for (i, op) in h.ops.iter().enumerate() {
+        if !e.apply(i, op) {
             break;
         }
     }
-    if run.out.aborted_at.is_none() {
-        run.out.final_state = state_string(&run.level);
-    }
-    run.out.digest = run.dg.finish();
-    run.out.steps = hooks.steps.load(std::sync::atomic::Ordering::Relaxed);
-    run.out.clock_ms = hooks.clock.span.load(std::sync::atomic::Ordering::Relaxed);
-    run.out.clock_jumps = hooks
-        .clock
-        .jumps_fired
-        .load(std::sync::atomic::Ordering::Relaxed);
-    let Run { out, level, .. } = run;
-    // drop the level with hooks still installed (map teardown is not a scheduling point)
-    drop(level);
-    out
+    e.finish()
 }
 
 #[allow(dead_code)]
